@@ -533,4 +533,126 @@ theorem block_routes {α : Type} (cfl : Arr Src) {sh csh : List Nat} {arr : List
       simp only [selIdx, hstep i hi]
       omega
 
+/-! ### a block whose definition runs backwards on some axes (served since the repair F1 of `_find_slice_overlap`) -/
+
+theorem block_axes_stepR {sh csh : List Nat} {arr : List (Int × Int)} {rv : List Bool} {ts csub psub : List NSlice}
+    (hbox : boxOK sh arr csh = true) (hrl : rv.length = sh.length) (hts : NormalSub sh ts)
+    (ho : overlapsR ts arr rv = some (csub, psub)) :
+    ∀ i, i < sh.length → (sliceAt psub i).step = 1 := by
+  obtain ⟨_, _, ⟨cs0, h0⟩, _⟩ := block_axesR hbox hrl hts ho
+  exact block_axes_step hbox hts h0
+
+theorem overlapsWR_eq : ∀ (sh : List Nat) (ts : List NSlice) (arr : List (Int × Int)) (rv : List Bool) (csh : List Nat),
+    NormalSub sh ts → boxOK sh arr csh = true → rv.length = sh.length → overlapsWR sh ts arr rv = overlapsR ts arr rv
+  | [], [], [], [], [], _, _, _ => rfl
+  | n :: sh, t :: ts, b :: arr, r :: rv, c :: csh, hts, hbox, hrl => by
+    simp only [NormalSub, allSlicesNormal, Bool.and_eq_true, decide_eq_true_eq] at hts
+    simp only [boxOK, Bool.and_eq_true, decide_eq_true_eq] at hbox
+    have ih := overlapsWR_eq sh ts arr rv csh hts.2 hbox.2 (by simpa using hrl)
+    unfold overlapsWR overlapsR
+    cases ho : overlap t b.1 b.2 with
+    | none => rfl
+    | some cp =>
+      obtain ⟨cc, p⟩ := cp
+      obtain ⟨_, x, hx⟩ := data_entry hts.1 hbox.1.1 hbox.1.2.1 hbox.1.2.2.1 ho
+      simp only [hx, ih]
+  | [], _ :: _, _, _, _, h, _, _ => by simp [NormalSub, allSlicesNormal] at h
+  | _ :: _, [], _, _, _, h, _, _ => by simp [NormalSub, allSlicesNormal] at h
+  | [], [], _ :: _, _, _, _, h, _ => by simp [boxOK] at h
+  | [], [], [], _ :: _, _, _, _, h => by simp at h
+  | [], [], [], [], _ :: _, _, h, _ => by simp [boxOK] at h
+  | _ :: _, _ :: _, [], _, _, _, h, _ => by simp [boxOK] at h
+  | _ :: _, _ :: _, _ :: _, [], _, _, _, h => by simp at h
+  | _ :: _, _ :: _, _ :: _, _ :: _, [], _, h, _ => by simp [boxOK] at h
+
+/-- one block with reversed axes, for any relation `Q` between the provenance of a pixel and the chunk value written there:
+    the chunk indices handed to the child correspond to the chunk indices whose position falls into the block -/
+theorem block_routesRQ {α : Type} (Q : Src → α → Prop) (cfl : Arr Src) {sh csh : List Nat} {arr : List (Int × Int)}
+    {rv : List Bool} {ts csub psub : List NSlice}
+    (hbox : boxOK sh arr csh = true) (hrl : rv.length = sh.length) (hts : NormalSub sh ts)
+    (ho : overlapsR ts arr rv = some (csub, psub))
+    (hcs : cfl.shape = csh) (hcloc : cfl.Local)
+    (d : Arr α) (hd : d.shape = ts.map NSlice.count) (hdl : d.Local) :
+    (∃ c : Idx, InR (csub.map NSlice.count) c ∧ Q (cfl.get (selIdx csub c)) ((d.select psub).get c)) ↔
+    (∃ idx : Idx, InR (ts.map NSlice.count) idx ∧ inBox arr (selIdx ts idx) = true ∧
+      Q (cfl.get (boxLoR arr rv (selIdx ts idx))) (d.get idx)) := by
+  obtain ⟨hcl, hpl, _, hax⟩ := block_axesR hbox hrl hts ho
+  have hstep := block_axes_stepR hbox hrl hts ho
+  obtain ⟨hal, hcshl, _⟩ := (boxOK_iff _ _ _).1 hbox
+  have htl := ((normalSub_iff _ _).1 hts).1
+  constructor
+  · rintro ⟨c, hc, hst⟩
+    have hck : ∀ i, i < sh.length → 0 ≤ c i ∧ c i < ((sliceAt csub i).count : Int) := by
+      intro i hi
+      have := hc i (by simp; omega)
+      rwa [dimAt_map_count] at this
+    refine ⟨selIdx psub c, ?_, ?_, ?_⟩
+    · intro i hi
+      simp only [List.length_map, htl] at hi
+      obtain ⟨k0, k1, e1, e2, e3, e4, e5, _, e7, _, _⟩ := hax i hi
+      have := hck i hi
+      rw [dimAt_map_count]
+      simp only [selIdx, e1, hstep i hi]
+      omega
+    · rw [inBox_iff]
+      intro i hi
+      rw [hal] at hi
+      obtain ⟨k0, k1, e1, e2, e3, e4, e5, _, e7, e8, _⟩ := hax i hi
+      have := hck i hi
+      have hk : selIdx psub c i = k0 + c i := by simp only [selIdx, e1, hstep i hi]; omega
+      exact (e8 (selIdx psub c i) (by omega) (by omega)).2 (by omega)
+    · have e1 : cfl.get (boxLoR arr rv (selIdx ts (selIdx psub c))) = cfl.get (selIdx csub c) := by
+        apply hcloc
+        intro i hi
+        rw [hcs, hcshl] at hi
+        obtain ⟨k0, k1, e1, e2, e3, e4, e5, _, e7, _, e9⟩ := hax i hi
+        have := hck i hi
+        have hk : selIdx psub c i = k0 + c i := by simp only [selIdx, e1, hstep i hi]; omega
+        have h9 := e9 (selIdx psub c i) (by omega) (by omega)
+        have hc' : c i = selIdx psub c i - k0 := by omega
+        show boxLoR arr rv (selIdx ts (selIdx psub c)) i = (sliceAt csub i).start + c i * (sliceAt csub i).step
+        rw [hc', h9]
+        simp only [boxLoR, selIdx]
+      rw [e1]
+      exact hst
+  · rintro ⟨idx, hidx, hin, hst⟩
+    have hk : ∀ i, i < sh.length → 0 ≤ idx i ∧ idx i < ((sliceAt ts i).count : Int) := by
+      intro i hi
+      have := hidx i (by simp; omega)
+      rwa [dimAt_map_count] at this
+    rw [inBox_iff] at hin
+    have hloc : ∀ i, i < sh.length → ∃ k0 k1 : Int, (sliceAt psub i).start = k0 ∧ k0 ≤ idx i ∧ idx i < k1 ∧
+        ((sliceAt csub i).count : Int) = k1 - k0 ∧
+        (sliceAt csub i).start + (idx i - k0) * (sliceAt csub i).step = boxLoR arr rv (selIdx ts idx) i := by
+      intro i hi
+      obtain ⟨k0, k1, e1, e2, _, _, _, _, e7, e8, e9⟩ := hax i hi
+      have := (e8 (idx i) (hk i hi).1 (hk i hi).2).1 (hin i (by omega))
+      refine ⟨k0, k1, e1, this.1, this.2, e7, ?_⟩
+      rw [e9 _ this.1 this.2]
+      simp only [boxLoR, selIdx]
+    refine ⟨fun i => idx i - (sliceAt psub i).start, ?_, ?_⟩
+    · intro i hi
+      simp only [List.length_map, hcl] at hi
+      obtain ⟨k0, k1, e1, h1, h2, e7, _⟩ := hloc i hi
+      rw [dimAt_map_count]
+      beta_reduce
+      omega
+    · have e1 : cfl.get (selIdx csub (fun i => idx i - (sliceAt psub i).start)) = cfl.get (boxLoR arr rv (selIdx ts idx)) := by
+        apply hcloc
+        intro i hi
+        rw [hcs, hcshl] at hi
+        obtain ⟨k0, k1, e1, h1, h2, e7, e⟩ := hloc i hi
+        simp only [selIdx, e1]
+        exact e
+      have e2 : (d.select psub).get (fun i => idx i - (sliceAt psub i).start) = d.get idx := by
+        show d.get _ = d.get _
+        apply hdl
+        intro i hi
+        rw [hd] at hi
+        simp only [List.length_map, htl] at hi
+        simp only [selIdx, hstep i hi]
+        omega
+      rw [e1, e2]
+      exact hst
+
 end Sarpy.Props.C07Seg
